@@ -409,6 +409,121 @@ def r09_4(rep: Report) -> None:
                      'instead of the new origin (drift between audio and the timing reference)', st)
 
 
+def nearest_search_threshold(rep: Report, rid: str) -> None:
+    """get_segment_index looks for the segment whose start is nearest the timecode: it steps over a segment while
+    the running start plus *half of that segment's duration* is still below the target.  The quantity that is
+    halved in the test and the quantity the body adds to the running start are the same expression - the duration
+    of the segment at hand.  With the nominal `segment_duration` in the test (or the duration of a neighbour) the
+    choice is off by one wherever stored durations differ from the nominal one (audio, text tracks), and numbers
+    and times map to other segments than the ones the manifest lists."""
+    rel = 'dashlive/mpeg/dash/representation.py'
+    tree = rep.repo.tree(rel)
+    cls = need(find_class(tree, 'Representation'), 'Representation')
+    fn = need(find_func(cls, 'get_segment_index'), 'Representation.get_segment_index')
+    construct = f'{rel}::Representation.get_segment_index'
+    from ..core import subst_locals
+    n = 0
+    for w in [x for x in ast.walk(fn) if isinstance(x, ast.While)]:
+        # the tests that end the search: the loop test, or `if <test>: break` inside a `while True`
+        tests = [(w.test, w)] + [(i.test, i) for i in ast.walk(w) if isinstance(i, ast.If)
+                                and any(isinstance(b, ast.Break) for b in i.body)]
+        for a in [a for a in ast.walk(w) if isinstance(a, ast.AugAssign) and isinstance(a.op, ast.Add)
+                  and isinstance(a.target, ast.Name) and not isinstance(a.value, ast.Constant)]:
+            # the running start: stepped by a duration and read by a deciding test (the segment counter is stepped by 1)
+            deciding = [(t, at) for t, at in tests if any(isinstance(x, ast.Name) and x.id == a.target.id for x in ast.walk(t))]
+            if not deciding:
+                continue
+            step = norm(subst_locals(fn, a.value, allow_calls=True))
+            for t, at in deciding:
+                n += 1
+                test = norm(subst_locals(fn, t, allow_calls=True))
+                extra = [x for x in _additive_terms(t, a.target.id)]
+                key = f'search ends on {short(t, 40)}'
+                if not extra:
+                    rep.fail(rid, construct, key,
+                             f'the search decides on the *start* `{a.target.id}` alone (`{norm(t)}`): nothing of the segment\'s own '
+                             'duration enters the test, the result is not the nearest start', at)
+                    continue
+                ok = all(step in norm(subst_locals(fn, x, allow_calls=True)) for x in extra)
+                if ok:
+                    rep.ok(rid, construct, key, f'threshold uses the stepped duration `{step}`')
+                else:
+                    rep.fail(rid, construct, key,
+                             f'the loop steps over `{step}` but decides with `{", ".join(norm(x) for x in extra)}` '
+                             f'(test `{test[:90]}`): where the stored duration of a segment differs from that quantity the segment '
+                             'chosen is not the one whose start is nearest the target', at)
+    if n == 0:
+        raise AnalysisError('get_segment_index: no `while <running start + ..> < target: <running start> += <duration>` search found')
+
+
+def _additive_terms(test: ast.AST, var: str) -> list[ast.AST]:
+    """the terms added to `var` in the side of a comparison that mentions it"""
+    out: list[ast.AST] = []
+    for c in ast.walk(test):
+        if isinstance(c, ast.Compare):
+            for side in [c.left] + list(c.comparators):
+                if not any(isinstance(x, ast.Name) and x.id == var for x in ast.walk(side)):
+                    continue
+                terms: list[ast.AST] = []
+
+                def flat(e):
+                    if isinstance(e, ast.BinOp) and isinstance(e.op, ast.Add):
+                        flat(e.left)
+                        flat(e.right)
+                    else:
+                        terms.append(e)
+                flat(side)
+                out += [t for t in terms if not (isinstance(t, ast.Name) and t.id == var)]
+    return out
+
+
+def r09_7(rep: Report) -> None:
+    """R09.7  calculate_segment_from_timecode stands between generateSegmentTimeline and get_segment_index: what it
+    returns is the triple get_segment_index found, element by element (in its own order), with no arithmetic in
+    between.  An "adjustment" there (a loop subtracted when the origin looks late) moves the first S@t of one
+    manifest a whole loop away from that of the manifest before it."""
+    from ..core import subst_locals
+    rid = 'R09.7'
+    rel = 'dashlive/mpeg/dash/representation.py'
+    tree = rep.repo.tree(rel)
+    cls = need(find_class(tree, 'Representation'), 'Representation')
+    fn = need(find_func(cls, 'calculate_segment_from_timecode'), 'Representation.calculate_segment_from_timecode')
+    construct = f'{rel}::Representation.calculate_segment_from_timecode'
+    calls = [a for a in ast.walk(fn) if isinstance(a, ast.Assign) and isinstance(a.value, ast.Call)
+             and (call_name(a.value) or '').endswith('get_segment_index')]
+    if len(calls) != 1 or not isinstance(calls[0].targets[0], (ast.Tuple, ast.Name)):
+        raise AnalysisError('calculate_segment_from_timecode: the call of get_segment_index was not found (inlined?)')
+    tg = calls[0].targets[0]
+    names = [e.id for e in tg.elts if isinstance(e, ast.Name)] if isinstance(tg, ast.Tuple) else [tg.id]
+    passing = {id(calls[0])}
+    if isinstance(tg, ast.Name):
+        # `found = self.get_segment_index(..)` then `a, b, c = found`: the unpacking hands the elements on
+        for a in ast.walk(fn):
+            if isinstance(a, ast.Assign) and isinstance(a.value, ast.Name) and a.value.id == tg.id \
+                    and isinstance(a.targets[0], ast.Tuple) and all(isinstance(e, ast.Name) for e in a.targets[0].elts):
+                names = [e.id for e in a.targets[0].elts]
+                passing.add(id(a))
+                tg = a.targets[0]
+    rets = [r for r in ast.walk(fn) if isinstance(r, ast.Return) and r.value is not None]
+    if not rets:
+        raise AnalysisError('calculate_segment_from_timecode: no return')
+    # any other store into one of the names, after the call
+    stores = [st for st in ast.walk(fn) if isinstance(st, (ast.Assign, ast.AugAssign, ast.AnnAssign)) and id(st) not in passing
+              and any(isinstance(x, ast.Name) and x.id in names and isinstance(x.ctx, ast.Store) for x in ast.walk(st))]
+    for r in rets:
+        elts = r.value.elts if isinstance(r.value, ast.Tuple) else [r.value]
+        plain = all(isinstance(e, ast.Name) and e.id in names for e in elts) or \
+            (isinstance(r.value, ast.Name) and r.value.id in names)
+        if plain and not stores and (isinstance(tg, ast.Name) or sorted(e.id for e in elts) == sorted(names)):
+            rep.ok(rid, construct, 'the index triple is handed on unchanged', ', '.join(norm(e) for e in elts))
+        else:
+            bad = stores[0] if stores else r
+            rep.fail(rid, construct, 'the index triple is handed on unchanged',
+                     f'what get_segment_index found ({", ".join(names)}) is changed before it is returned '
+                     f'(`{short(bad, 70)}`): the start of the first listed segment no longer follows the nearest-start '
+                     'search, and successive manifests can disagree by a whole loop of the media', bad)
+
+
 def r09_6(rep: Report) -> None:
     """each URL the manifest advertises is completed with its own parameter set: the PatchLocation with
     `cgi_params.patch` (the request's options minus what ServePatch forces), the MPD Location with
@@ -482,12 +597,16 @@ def analyse(rep: Report) -> None:
     rep.rule('R09.4', 'loop wrap re-establishes (mod_segment = 1, seg_start_tc = origin_time)', floor=1)
     rep.rule('R09.5', 'a segment is listed with the same start and duration whatever the window (S runs: rule of C06)', floor=1)
     rep.rule('R09.6', 'PatchLocation and Location are completed with their own parameter sets', floor=2)
+    rep.rule('R09.7', 'calculate_segment_from_timecode hands on what get_segment_index found, unchanged', floor=1)
+    rep.rule('R09.8', 'the nearest-start search decides with the duration of the segment it steps over', floor=1)
     idx = Index(rep.repo)
     r09_1(rep)
     r09_2(rep, idx)
     r09_3(rep)
     r09_4(rep)
     r09_6(rep)
+    r09_7(rep)
+    nearest_search_threshold(rep, 'R09.8')
     from ..core import lift
     from . import c06 as _c06
 
